@@ -11,6 +11,8 @@ ENGINE_NOTE = ("Trusted base: z3 5.1.0; the symx engine (SymReal arithmetic, Num
                "unmodified float code; floats are modelled as exact reals (IEEE rounding outside the claim); bounds as "
                "stated in the evidence file.")
 
+PIPE_NOTE = "Bounds: line sweeps (one stream temperature / dT_cont / duty a z3 real over its whole range on fixed site templates of 1-2 process zones and 2-3 streams, default utilities or explicit isothermal ladders) plus small fully symbolic sites in the thorough tier; distinct breakpoints equal or >= 0.25 K apart; zone tree built directly (labels are C10's subject); pydantic UtilitySchema replaced by an attribute bag while the real default-utility code runs. "
+
 CHECKS = {
     "C08": dict(
         category="model_checking",
@@ -93,6 +95,38 @@ CHECKS = {
              "'never exceeds counter flow' needs convexity of exp and is outside; shell-and-tube: dispatch and range only. "
              "Axioms listed verbatim in the evidence. " + ENGINE_NOTE,
         technique="solver-based symbolic execution of the real code with exp/log as uninterpreted functions + axioms (z3 NRA/UF)",
+    ),
+    "C02": dict(
+        category="model_checking",
+        text="The whole targeting pipeline of a site (main._get_site_targets -> direct integration of every zone, zone summation, "
+             "total-site cascade, record serialisation) is executed symbolically; per feasible path and per returned record the negated "
+             "first-law obligations (Qh - Qc = cold - hot duty, Qr = hot duty - Qc, all >= 0, listed utility duties differ by Qh - Qc) "
+             "are discharged by z3 against the input duties.",
+        design_ref="5/C02", note=PIPE_NOTE + ENGINE_NOTE,
+        technique="solver-based path-exhaustive symbolic execution of the real pipeline (z3, linear real arithmetic per path)",
+    ),
+    "C03": dict(
+        category="model_checking",
+        text="Same symbolic execution of the pipeline incl. the real default-utility decision/placement code; per path the negated "
+             "obligations 'hot utility duties sum to Qh, cold to Qc, each >= 0' for every direct-integration and total-process record and "
+             "'the total-process record lists utility by utility the sum of its zones' are discharged.",
+        design_ref="5/C03", note=PIPE_NOTE + ENGINE_NOTE,
+        technique="solver-based path-exhaustive symbolic execution of the real pipeline (z3)",
+    ),
+    "C04": dict(
+        category="model_checking",
+        text="Same symbolic execution; per path (i) 0 <= H_net_ut <= H_net_actual at every row of every zone's shifted table and (ii) for "
+             "explicit isothermal ladders the closed-form optimum 'k-th lowest-grade utility carries min(total, NP(level)) minus what is "
+             "already assigned' (NP read at the utility's own table row) are discharged.",
+        design_ref="5/C04", note=PIPE_NOTE + "Glide utilities: not covered. Tables are read after the in-place 4-dp rounding (tolerance 2e-4). " + ENGINE_NOTE,
+        technique="solver-based path-exhaustive symbolic execution of the real pipeline (z3) against a closed-form optimum",
+    ),
+    "C09": dict(
+        category="model_checking",
+        text="Same symbolic execution on sites with two process zones; per path: total-process record = sum of zone records (values and "
+             "per utility), DI_site <= TS <= sum of zones for Qh and Qc, Qr_TS = sum Qr_zones + (Qh_TZ - Qh_TS).",
+        design_ref="5/C09", note=PIPE_NOTE + "3-4 zones and nested sites are outside the bound. " + ENGINE_NOTE,
+        technique="solver-based path-exhaustive symbolic execution of the real pipeline (z3)",
     ),
 }
 
